@@ -171,9 +171,6 @@ struct Walk<'a> {
     ref_t: Vec<Bits>,
     asg_t: Vec<Bits>,
     emu_rbw: Vec<bool>,
-    /// read, textually unassigned bits whose later write went unflagged
-    /// because the write also covers a read bit that is already assigned
-    emu_overlap: Vec<Bits>,
     emu_ub_inner: Vec<Bits>,
     reads: &'a mut Reads,
     has_full_case_nodefault: bool,
@@ -202,9 +199,8 @@ impl<'a> Walk<'a> {
         if strict.any() {
             self.strict_items.push((u, strict, cond, strict & self.may[u]));
         }
-        if !cond {
-            self.ref_t[u] |= rm;
-        }
+        // conditions and selectors are reads like any other
+        self.ref_t[u] |= rm;
     }
 
     fn reads_of(&mut self, e: &Expr, lv: Option<usize>, cond: bool, cont: &[Bits]) {
@@ -274,11 +270,10 @@ impl<'a> Walk<'a> {
                     cw[v] |= m;
                     self.reads_of(e, lv, false, &cw);
                     if self.comb && (self.ref_t[v] & m).any() {
+                        // per bit: a referred bit under the write is textually unassigned
                         let rm = self.ref_t[v] & m;
-                        if (rm & self.asg_t[v]).none() {
+                        if (rm & !self.asg_t[v]).any() {
                             self.emu_rbw[v] = true;
-                        } else {
-                            self.emu_overlap[v] |= rm & !self.asg_t[v];
                         }
                     }
                     self.must[v] |= m;
@@ -370,7 +365,6 @@ struct CombRes {
     rbw_loose: Vec<Bits>,
     strict_items: Vec<(usize, Bits, bool, Bits)>,
     emu_rbw: Vec<bool>,
-    emu_overlap: Vec<Bits>,
     emu_ub_inner: Vec<Bits>,
     full_case: bool,
 }
@@ -393,7 +387,6 @@ fn walk_proc(vars: &[VarDecl], body: &[Stmt], comb: bool, ft: bool, reads: &mut 
         ref_t: vec![Bits::ZERO; n],
         asg_t: vec![Bits::ZERO; n],
         emu_rbw: vec![false; n],
-        emu_overlap: vec![Bits::ZERO; n],
         emu_ub_inner: vec![Bits::ZERO; n],
         reads,
         has_full_case_nodefault: false,
@@ -407,7 +400,6 @@ fn walk_proc(vars: &[VarDecl], body: &[Stmt], comb: bool, ft: bool, reads: &mut 
         rbw_loose: w.rbw_loose,
         strict_items: w.strict_items,
         emu_rbw: w.emu_rbw,
-        emu_overlap: w.emu_overlap,
         emu_ub_inner: w.emu_ub_inner,
         full_case: w.has_full_case_nodefault,
     }
@@ -517,24 +509,16 @@ pub fn analyse(dsg: &Design) -> Analysis {
         };
         // how a miss would be named
         let rbw_plain = comb_a.iter().any(|c| c.emu_rbw[v]);
-        let uv_missing_tag = if (never_must && never_plain) || rbw_plain {
+        // a never-assigned read bit is reported whatever kind of read it is;
+        // a read-before-assign is reported when the textual bookkeeping sees
+        // it, otherwise the bit was assigned earlier in the text on another path
+        let _ = never_plain;
+        let uv_missing_tag = if never_must || rbw_plain {
             ""
-        } else if never_must && (un & reads[v][1]).any() {
-            "condition-read-not-counted"
-        } else if never_must && (un & reads[v][2]).any() {
-            "inst-input-read-not-counted"
+        } else if comb_a.iter().flat_map(|c| c.strict_items.iter()).any(|i| i.0 == v) {
+            "assigned-on-other-path"
         } else {
-            let items: Vec<&(usize, Bits, bool, Bits)> =
-                comb_a.iter().flat_map(|c| c.strict_items.iter()).filter(|i| i.0 == v).collect();
-            if items.is_empty() {
-                ""
-            } else if items.iter().all(|i| i.2) {
-                "condition-read-not-counted"
-            } else if comb_a.iter().any(|c| (c.emu_overlap[v] & c.rbw_strict[v]).any()) {
-                "partial-overlap"
-            } else {
-                "assigned-on-other-path"
-            }
+            ""
         };
         if ma {
             classes.insert("exp:MultipleAssignment".into());
